@@ -1,7 +1,8 @@
 # integrated from builder group locks
 CHECKS['C18'] = {'pkg': 'lock',
  'tests': [{'name': 'TestC18Etcd', 'quick': 170, 'thorough': 40000, 'shrinktime': '15s'},
-           {'name': 'TestC18Redis', 'quick': 35, 'thorough': 8000, 'shrinktime': '2s'}],
+           {'name': 'TestC18Redis', 'quick': 35, 'thorough': 8000, 'shrinktime': '2s'},
+           {'name': 'TestC18Window', 'quick': 10, 'thorough': 1600, 'shrinktime': '10s'}],
  'level': 'exploration',
  'technique': 'property-based testing (rapid): generated contender scripts executed with real goroutines against both lock back ends; history invariants '
               '(holder count <= 1, pinned try-lock must fail, lower bound on a failed wait, generous waiter must acquire)',
